@@ -167,7 +167,7 @@ def classify(out, verdicts, byid):
             feats = sorted(kinds_in(rec["e"]))
             err = rec["res"].get("v", {}).get("e", "")
             hit = next((k for k in known if k.get("kind") == "coeff" and k.get("clause") == v["v"]
-                        and k.get("contains") in feats and k.get("error", err) == err
+                        and (k.get("contains") is None or k.get("contains") in feats) and k.get("error", err) == err
                         and (k.get("targets") is None or (k["targets"] == "named") == (rec["tgt"] != ["ALL"]))), None)
             sig = hit or {"kind": "coeff", "clause": v["v"], "kinds": feats, "error": err, "tgt": rec["tgt"]}
         else:
